@@ -18,6 +18,19 @@ package utils
 //@   ensures[C17.then-ctx]      called(then) == 1 && rollback == nil ==> root(arg(then, 0)) == NEVER
 //@   ensures[C17.cond-ctx]      root(arg(cond, 0)) == root(ctx)
 
+//@ # PCR (prepare / commit / rollback) hands Txn the caller's steps unchanged and a wrapper that runs the caller's
+//@ # rollback exactly when the failing step was not the prepare step, i.e. only when the commit step failed
+//@ func PCR
+//@   requires prepare != nil
+//@   assert[C17.pcr-wiring] before call Txn#1: arg0 == ctx && arg1 == prepare && arg2 == commit && arg3 != nil && arg4 == ttl
+//@   ensures[C17.pcr-result] result == res(utils.Txn)
+
+//@ func PCR$1
+//@   requires rollback != nil
+//@   ensures[C17.pcr-rollback-iff] called(rollback) == (failureByCond ? 0 : 1)
+//@   ensures[C17.pcr-rollback-ctx] called(rollback) == 1 ==> arg(rollback, 0) == ctx
+//@   ensures[C17.pcr-rollback-res] result == (failureByCond ? nil : res(rollback))
+
 //@ func NewInheritCtx
 //@   ensures[C17.inherit] result != nil && root(result) == NEVER
 
